@@ -97,9 +97,22 @@ fn tree_texts(t: &liwe::model::tree::Tree, out: &mut Vec<String>) {
                 tree_texts(c, out);
             }
             Node::Raw(_, content) => out.push(format!("code:{}", content.trim())),
+            Node::Table(t) => {
+                out.push(table_text(t));
+                tree_texts(c, out)
+            }
             _ => tree_texts(c, out),
         }
     }
+}
+
+fn table_text(t: &liwe::model::node::Table) -> String {
+    let cell = |c: &liwe::model::graph::GraphInlines| scan::collapse_ws(&liwe::model::graph::to_plain_text(c));
+    let mut cells: Vec<String> = t.header.iter().map(cell).collect();
+    for r in &t.rows {
+        cells.extend(r.iter().map(cell));
+    }
+    format!("T:{}", cells.join("|"))
 }
 
 /// iwe's squashed Tree in the same form
@@ -119,7 +132,7 @@ pub fn of_tree(t: &liwe::model::tree::Tree) -> Vec<T> {
             Node::HorizontalRule() => out.push(T::Block("R".into())),
             Node::Reference(r) => out.push(T::Ref(r.key.to_string())),
             Node::Quote() => out.push(T::Block("Q".into())),
-            Node::Table(_) => out.push(T::Block("T".into())),
+            Node::Table(t) => out.push(T::Block(table_text(t))),
             Node::Document(_) => out.extend(of_tree(c)),
         }
     }
@@ -207,6 +220,19 @@ fn depth_of(nodes: &[T]) -> usize {
         })
         .max()
         .unwrap_or(0)
+}
+
+/// the largest number of sibling blocks anywhere in the tree
+fn max_siblings(nodes: &[T]) -> usize {
+    nodes
+        .iter()
+        .map(|n| match n {
+            T::Section(_, ch) => max_siblings(ch),
+            _ => 0,
+        })
+        .max()
+        .unwrap_or(0)
+        .max(nodes.len())
 }
 
 /// relative order of the non-reference blocks (they keep their order)
@@ -329,6 +355,11 @@ impl Property for C17 {
         let expected = expand(&model, &model[&root], case.depth as u32, &mut budget);
         if budget < 0 {
             return Verdict::Discard("expansion larger than 50 000 nodes".into());
+        }
+        // thousands of sibling blocks overflow the stack of every recursive walk in iwe
+        // (KF-DEEP-RECURSION): outside the strict domain while that finding stands
+        if !feature_on("scale_big") && max_siblings(&expected) > 800 {
+            return Verdict::Discard("known-domain: expansion with more than 800 sibling blocks".into());
         }
         let (got, out) = squash_export(&lib, &root, case.depth);
         // references in the model that carry a cycle / sharing
